@@ -573,5 +573,32 @@ func (c *Ctx) checkStripFilter(fn, isLocal *ssa.Function) {
 			nErrRet++
 		}
 	}
+	okOut := false
+	for _, r := range returnsOf(fn) {
+		if flows(r.Results[0], func(v ssa.Value) bool {
+			cc, i, ok := callResult(v)
+			return ok && i == 0 && strings.HasSuffix(calleeName(cc), "SessionDescription).Marshal")
+		}) {
+			okOut = true
+		}
+	}
+	c.check(okOut, rule, "the result is the re-marshalled filtered description", p.Pos(fn.Pos()), "", "no return carries the output of desc.Marshal(): the filtered candidates are thrown away")
+	// the filtered slice replaces the section's attributes
+	okAssign := false
+	allInstrs(fn, func(in ssa.Instruction) {
+		if st, ok := in.(*ssa.Store); ok {
+			if _, f, okf := fieldOfAddr(st.Addr); okf && f.Name() == "Attributes" {
+				okAssign = flows(st.Val, func(v ssa.Value) bool { return v == ssa.Value(app) }) || st.Val == ssa.Value(app)
+				if ph, isPhi := st.Val.(*ssa.Phi); isPhi {
+					for _, e := range ph.Edges {
+						if e == ssa.Value(app) {
+							okAssign = true
+						}
+					}
+				}
+			}
+		}
+	})
+	c.check(okAssign, rule, "each media section's attributes are replaced by its filtered list", p.Pos(fn.Pos()), "", "m.Attributes is not assigned the filtered slice")
 	c.check(nErrRet >= 2, rule, "parse and marshal errors return the input unchanged", p.Pos(fn.Pos()), "", fmt.Sprintf("%d returns of the unchanged input, expected the unmarshal and the marshal error exits", nErrRet))
 }
